@@ -271,5 +271,5 @@ def run(rep, tier):
         rep.call(alpha_lane, rep, prog, "C06.alpha-lane")
         rep.call(variants, rep, prog, "C06.variants")
         if cfg != "wasm":
-            n = rep.call(c03.arith, rep, prog, "C06.scalar-range", only=lambda f: f.file == "src/alpha/common.rs") or 0
+            n = rep.call(c03.arith, rep, prog, "C06.scalar-range", only=lambda f: f.file == prog.file_now("src/alpha/common.rs")) or 0
             rep.floor("C06.scalar-range", "arithmetic asserts in alpha/common.rs", n, 10)
